@@ -9,6 +9,7 @@ import Flowjaxv.Proofs.JaxTransforms
 import Flowjaxv.Proofs.BnafGen
 import Flowjaxv.Proofs.TriangularGen
 import Flowjaxv.Proofs.PermGen
+import Flowjaxv.Proofs.NetGen
 /-!
 # C01 — every bijection is invertible: inverse undoes transform, both ways
 
@@ -399,6 +400,129 @@ theorem bnaf_instance (y : List ℝ) (hy : y.length = 2) :
 
 end NetworkBijections
 /-! ## ===== END network bijections ===== -/
+
+/-! ## ===== BEGIN generated Coupling / MaskedAutoregressive =====
+
+`Gen/NetGen.lean` is REGENERATED on every run from `flowjax/bijections/coupling.py` (`Coupling.transform`,
+`transform_and_log_det`, `inverse`, `inverse_and_log_det`, `_flat_params_to_transformer`) and
+`flowjax/bijections/masked_autoregressive.py` (`MaskedAutoregressive.transform`, `transform_and_log_det`, `inverse`,
+`inv_scan_fn`, `inverse_and_log_det`, `_flat_params_to_transformer`), statement by statement, by `tools/py2lean/py2meth.py`
+(sheet `targets_net.py`, library calls in `Model/NetWorld.lean`).  `GenNet.Coupling.toBij self` / `GenNet.Maf.toBij self`
+are the four generated methods as a `Bij` record; the condition is `Option (List ℝ)` (`None` = `none`).  The theorems
+below are about THESE definitions: a change of the source that changes what the methods compute breaks
+`gen_coupling_eq_model` / `gen_maf_eq_model` (or is refused by the translator). -/
+section GeneratedNet
+open Masks MasksPf Nw GenNet
+
+/-- **`gen_coupling_eq_model`** — the four generated methods of `Coupling` are the hand model `Masks.couplingBij`
+(conditioner applied to `x[:d] (++ condition)`, rows `reshape(…, (dim − d, −1))`, transformer `i` on coordinate `d + i`,
+log-dets summed), for every scalar type, every object (sizes, conditioner function, transformer family), every `x` of
+the declared length `dim`, `condition=None` or an array. -/
+theorem gen_coupling_eq_model {α : Type} [Add α] [Mul α] [Neg α] [OfNat α 0] [Inhabited α]
+    (self : CouplingObj α) (x : List α) (c : Option (List α)) (hx : x.length = self.dim) :
+    Coupling.transform self x c
+        = (couplingBij self.untransformed_dim self.conditioner self.transformer_constructor).fwd x (c.getD []) ∧
+    Coupling.inverse self x c
+        = (couplingBij self.untransformed_dim self.conditioner self.transformer_constructor).inv x (c.getD []) ∧
+    Coupling.transformAndLogDet self x c
+        = (couplingBij self.untransformed_dim self.conditioner self.transformer_constructor).fwdLd x (c.getD []) ∧
+    Coupling.inverseAndLogDet self x c
+        = (couplingBij self.untransformed_dim self.conditioner self.transformer_constructor).invLd x (c.getD []) :=
+  NetGenPf.gen_coupling_eq_model self x c hx
+
+/-- **`gen_maf_eq_model`** — the four generated methods of `MaskedAutoregressive` (the `len(y)`-step `lax.scan` of the
+generated `inv_scan_fn` included) are the hand model `Masks.mafBij`, for every scalar type, every masked network
+(`MafObj.ofNet N tf`: `shape = (N.dim,)`, the MLP `mlpForward N.act N.layers` whose masks `Gen/MasksGen.lean` regenerates),
+every transformer family, every `x` of length `dim`, `condition=None` or an array. -/
+theorem gen_maf_eq_model {α : Type} [Add α] [Mul α] [Neg α] [OfNat α 0] [Inhabited α]
+    (N : MafNet α) (tf : List α → Bij α Unit α) (x : List α) (c : Option (List α)) (hx : x.length = N.dim) :
+    Maf.transform (MafObj.ofNet N tf) x c = (mafBij N tf).fwd x (c.getD []) ∧
+    Maf.inverse (MafObj.ofNet N tf) x c = (mafBij N tf).inv x (c.getD []) ∧
+    Maf.transformAndLogDet (MafObj.ofNet N tf) x c = (mafBij N tf).fwdLd x (c.getD []) ∧
+    Maf.inverseAndLogDet (MafObj.ofNet N tf) x c = (mafBij N tf).invLd x (c.getD []) :=
+  NetGenPf.gen_maf_eq_model N tf x c hx
+
+/-- one generated scan step is the hand model's pass: `inv_scan_fn((y, rank), None, condition)` recomputes all
+parameters, inverts every coordinate, keeps coordinate `rank`, and returns `rank + 1` (for `rank < len(y) = dim`) -/
+theorem gen_maf_inv_scan_fn {α : Type} [Add α] [Mul α] [Neg α] [OfNat α 0] [Inhabited α]
+    (N : MafNet α) (tf : List α → Bij α Unit α) (c : Option (List α)) (y : List α) (rank : Nat)
+    (hy : y.length = N.dim) (hr : rank < N.dim) :
+    Maf.invScanFn (MafObj.ofNet N tf) (y, rank) () c
+      = ((N.invStep (fun ps t => (tf ps).inv t ()) (c.getD []) y rank, rank + 1), ()) :=
+  NetGenPf.gen_invScanFn_eq N tf c y rank hy hr
+
+/-- **`gen_coupling_init_spec`** — the generated fragment of `Coupling.__init__` (leading guard + the attributes finally
+assigned): it raises `ValueError` (`none`) iff `transformer.shape != ()` or `transformer.cond_shape is not None`; otherwise
+`shape = (dim,)`, `cond_shape = (cond_dim,)` or `None`, `untransformed_dim`, `dim` are those of the object the theorems are
+about (`CouplingObj.mk'`). -/
+theorem gen_coupling_init_spec {α : Type} [Add α] [Mul α] [Neg α] [OfNat α 0] [Inhabited α] (t : Nw.TSpec) (d dim : Nat) (cd : Option Nat) (w dep : Nat)
+    (cnd : List α → List α) (tf : List α → Bij α Unit α) :
+    (Coupling.initShapes t d dim cd w dep = none ↔ (t.shape ≠ [] ∨ t.cond_shape ≠ none)) ∧
+    (t.shape = [] → t.cond_shape = none →
+      Coupling.initShapes t d dim cd w dep
+        = some ((CouplingObj.mk' d dim cd cnd tf).shape, (CouplingObj.mk' d dim cd cnd tf).cond_shape,
+                (CouplingObj.mk' d dim cd cnd tf).untransformed_dim, (CouplingObj.mk' d dim cd cnd tf).dim)) :=
+  NetGenPf.gen_coupling_init_spec t d dim cd w dep cnd tf
+
+/-- **`gen_maf_init_spec`** — the generated fragment of `MaskedAutoregressive.__init__`: the same guard, and
+`shape = (dim,)`, `cond_shape` as `MafObj.ofNet` declares them (`_flat_params_to_transformer` reads `self.shape[-1]`). -/
+theorem gen_maf_init_spec {α : Type} [Add α] [Mul α] [Neg α] [OfNat α 0] [Inhabited α] (t : Nw.TSpec) (w dep : Nat) (N : MafNet α)
+    (tf : List α → Bij α Unit α) :
+    (Maf.initShapes t N.dim N.condDim w dep = none ↔ (t.shape ≠ [] ∨ t.cond_shape ≠ none)) ∧
+    (t.shape = [] → t.cond_shape = none →
+      Maf.initShapes t N.dim N.condDim w dep = some ((MafObj.ofNet N tf).shape, (MafObj.ofNet N tf).cond_shape)) :=
+  NetGenPf.gen_maf_init_spec t w dep N tf
+
+/-- **`gen_coupling_lawful`** — the GENERATED `Coupling` methods: `transform` maps the vectors of length `dim` whose
+transformed coordinates lie in `D₁` to those in `E₁`, `inverse` maps back, `inverse(transform(x)) = x`,
+`transform(inverse(y)) = y`, and each `…_and_log_det` returns the plain method's point — every conditioner function,
+split, dimension, condition (or `None`), transformer family lawful `D₁ ↔ E₁` per parameter row. -/
+theorem gen_coupling_lawful (self : CouplingObj ℝ) (D₁ E₁ : Set ℝ)
+    (htf : ∀ ps, (self.transformer_constructor ps).Lawful D₁ E₁) :
+    (Coupling.toBij self).Lawful
+      {x | x.length = self.dim ∧ ∀ t ∈ x.drop self.untransformed_dim, t ∈ D₁}
+      {y | y.length = self.dim ∧ ∀ t ∈ y.drop self.untransformed_dim, t ∈ E₁} :=
+  NetGenPf.gen_coupling_lawful self D₁ E₁ htf
+
+/-- the two round trips of the generated `Coupling` as plain equations (transformers bijective on all of ℝ) -/
+theorem gen_coupling_inverse_correct (self : CouplingObj ℝ) (htf : ∀ ps, (self.transformer_constructor ps).Lawful univ univ)
+    (x : List ℝ) (c : Option (List ℝ)) (hx : x.length = self.dim) :
+    Coupling.inverse self (Coupling.transform self x c) c = x ∧ Coupling.transform self (Coupling.inverse self x c) c = x :=
+  ⟨(gen_coupling_lawful self univ univ htf).left x ⟨hx, fun _ _ => trivial⟩ c,
+   (gen_coupling_lawful self univ univ htf).right x ⟨hx, fun _ _ => trivial⟩ c⟩
+
+/-- **`gen_maf_lawful`** — the GENERATED `MaskedAutoregressive` methods on the object of any well-shaped masked network:
+both round trips (the generated sequential inverse really inverts the generated transform), the image / preimage sets and
+the `…_and_log_det` points. -/
+theorem gen_maf_lawful (N : MafNet ℝ) (hN : N.WellShaped) (tf : List ℝ → Bij ℝ Unit ℝ) (D₁ E₁ : Set ℝ)
+    (htf : ∀ ps, (tf ps).Lawful D₁ E₁) :
+    (Maf.toBij (MafObj.ofNet N tf)).Lawful {x | x.length = N.dim ∧ ∀ t ∈ x, t ∈ D₁} {y | y.length = N.dim ∧ ∀ t ∈ y, t ∈ E₁} :=
+  NetGenPf.gen_maf_lawful N hN tf D₁ E₁ htf
+
+/-- **`gen_maf_inverse_correct`** — `inverse(transform(x)) = x` and `transform(inverse(y)) = y` for the generated methods:
+the `dim` scan steps of the generated `inv_scan_fn` recover the preimage, all weights, every condition. -/
+theorem gen_maf_inverse_correct (N : MafNet ℝ) (hN : N.WellShaped) (tf : List ℝ → Bij ℝ Unit ℝ)
+    (htf : ∀ ps, (tf ps).Lawful univ univ) (x : List ℝ) (c : Option (List ℝ)) (hx : x.length = N.dim) :
+    Maf.inverse (MafObj.ofNet N tf) (Maf.transform (MafObj.ofNet N tf) x c) c = x ∧
+    Maf.transform (MafObj.ofNet N tf) (Maf.inverse (MafObj.ofNet N tf) x c) c = x :=
+  ⟨(gen_maf_lawful N hN tf univ univ htf).left x ⟨hx, fun _ _ => trivial⟩ c,
+   (gen_maf_lawful N hN tf univ univ htf).right x ⟨hx, fun _ _ => trivial⟩ c⟩
+
+/-- non-vacuity by kernel evaluation of the GENERATED definitions at `ℤ`: a conditional coupling layer on `ℤ³`
+(`NetGenPf.couplingExampleZ`: conditioner `(a, c) ↦ (a², a + c)`, shift transformers) and the masked net of
+`mafExample` — concrete values of all four methods, and the round trips. -/
+theorem gen_net_instance :
+    Coupling.transformAndLogDet NetGenPf.couplingExampleZ [2, 5, 7] (some [3]) = ([2, 9, 12], 0) ∧
+    Coupling.inverseAndLogDet NetGenPf.couplingExampleZ [2, 9, 12] (some [3]) = ([2, 5, 7], 0) ∧
+    Coupling.transform NetGenPf.couplingExampleZ [2, 5, 7] none = [2, 9, 9] ∧
+    Coupling.inverse NetGenPf.couplingExampleZ [2, 9, 9] none = [2, 5, 7] ∧
+    Maf.transform (MafObj.ofNet NetGenPf.mafExampleZ NetGenPf.shiftFamilyZ) [3, 4] none = [3, 10] ∧
+    Maf.inverse (MafObj.ofNet NetGenPf.mafExampleZ NetGenPf.shiftFamilyZ) [3, 10] none = [3, 4] ∧
+    Maf.inverseAndLogDet (MafObj.ofNet NetGenPf.mafExampleZ NetGenPf.shiftFamilyZ) [3, 10] none = ([3, 4], 0) := by
+  decide
+
+end GeneratedNet
+/-! ## ===== END generated Coupling / MaskedAutoregressive ===== -/
 
 /-! ## ===== BEGIN premade flows (`flowjax/flows.py`): whole flows, every number of layers =====
 
